@@ -66,6 +66,12 @@ Definition starved (st : mstate) (new0 : list bstr) : Prop :=
   (exists k, calls_left st = Some k /\ (k < length new0)%nat) \/
   (exists k, bytes_left st = Some k /\ k < N.of_nat (length (acc new0))).
 
+(* where the faulty run stopped: the call budget was exactly used up by whole Write calls of the
+   fault-free run, or the byte budget was exactly filled *)
+Definition stopped (st : mstate) (new new0 : list bstr) : Prop :=
+  (calls_left st = Some (length new) /\ exists later, new0 = later ++ new) \/
+  bytes_left st = Some (N.of_nat (length (acc new))).
+
 Definition sim {A} (st : mstate) (faulty free : outcome A * mstate) : Prop :=
   let '(r, st') := faulty in
   let '(r0, st0') := free in
@@ -76,7 +82,7 @@ Definition sim {A} (st : mstate) (faulty free : outcome A * mstate) : Prop :=
       bytes_acct (bytes_left st) (bytes_left st') (length (acc new0)))
      \/
      (r = Err e_write /\ starved st new0 /\
-      exists new, out st' = new ++ out st /\ prefix (acc new) (acc new0))).
+      exists new, out st' = new ++ out st /\ prefix (acc new) (acc new0) /\ stopped st new new0)).
 
 Definition wsim {A} (m : M A) : Prop := forall st, sim st (m st) (m (unfault st)).
 
@@ -138,7 +144,7 @@ Lemma wsim_bind {A B} (m : M A) (f : A -> M B) : wsim m -> (forall x, wsim (f x)
 Proof.
   intros Hm Hf st. pose proof (Hm st) as H1.
   destruct (m st) as [r1 st1] eqn:Em. destruct (m (unfault st)) as [r1' st1'] eqn:Em'.
-  cbn [sim] in H1. destruct H1 as (n0a & Hout1 & Hun1 & [ (-> & -> & Hc1 & Hb1) | (-> & Hst1 & new & Hnew & Hpre) ]).
+  cbn [sim] in H1. destruct H1 as (n0a & Hout1 & Hun1 & [ (-> & -> & Hc1 & Hb1) | (-> & Hst1 & new & Hnew & Hpre & Hstop) ]).
   - (* the first part ran identically *)
     destruct (classify r1') as [x|e] eqn:Hcl.
     + apply classify_ok in Hcl. subst r1'.
@@ -148,7 +154,7 @@ Proof.
       cbn [sim] in H2 |- *. destruct H2 as (n0b & Hout2 & Hun2 & H2).
       exists (n0b ++ n0a). change (out (unfault st1)) with (out st1) in Hout1.
       split; [rewrite Hout2, Hout1, app_assoc; reflexivity|]. split; [exact Hun2|].
-      destruct H2 as [ (-> & -> & Hc2 & Hb2) | (-> & Hst2 & new & Hnew & Hpre) ].
+      destruct H2 as [ (-> & -> & Hc2 & Hb2) | (-> & Hst2 & new & Hnew & Hpre & Hstop) ].
       * left. split; [reflexivity|]. split; [reflexivity|]. split.
         -- rewrite app_length. eapply calls_acct_trans; eauto.
         -- rewrite acc_app, app_length. eapply bytes_acct_trans; eauto.
@@ -161,7 +167,15 @@ Proof.
               destruct Hb1 as (k' & Hk' & ->). rewrite Hk' in Hk1. inversion Hk1; subst.
               eexists; split; [reflexivity|]. rewrite acc_app, app_length. lia.
         -- exists (new ++ n0a). split; [rewrite Hnew, Hout1, app_assoc; reflexivity|].
-           rewrite !acc_app. apply prefix_app_l. exact Hpre.
+           split; [rewrite !acc_app; apply prefix_app_l; exact Hpre|].
+           destruct Hstop as [(Hk & later & ->) | Hk]; [left | right].
+           ++ split; [|exists later; rewrite app_assoc; reflexivity].
+              unfold calls_acct in Hc1. destruct (calls_left st) as [k0|]; [|congruence].
+              destruct Hc1 as (k' & Hk' & ->). rewrite Hk' in Hk. inversion Hk; subst.
+              rewrite app_length. reflexivity.
+           ++ unfold bytes_acct in Hb1. destruct (bytes_left st) as [k0|]; [|congruence].
+              destruct Hb1 as (k' & Hk' & ->). rewrite Hk' in Hk. inversion Hk; subst.
+              rewrite acc_app, app_length. f_equal. lia.
     + apply classify_fault in Hcl. subst r1'.
       rewrite (mbind_fault _ _ _ _ _ Em), (mbind_fault _ _ _ _ _ Em').
       cbn [sim]. exists n0a. split; [exact Hout1|]. split; [exact Hun1|].
@@ -175,7 +189,9 @@ Proof.
       cbn [sim] in H2 |- *. destruct H2 as (n0b & Hout2 & Hun2 & _).
       exists (n0b ++ n0a). split; [rewrite Hout2, Hout1, app_assoc; reflexivity|]. split; [exact Hun2|].
       right. split; [reflexivity|]. split; [apply starved_more; exact Hst1|].
-      exists new. split; [exact Hnew|]. rewrite acc_app. apply prefix_app_r. exact Hpre.
+      exists new. split; [exact Hnew|]. split; [rewrite acc_app; apply prefix_app_r; exact Hpre|].
+      destruct Hstop as [(Hk & later & ->) | Hk]; [left | right; exact Hk].
+      split; [exact Hk | exists (n0b ++ later); rewrite app_assoc; reflexivity].
     + apply classify_fault in Hcl. subst r1'. rewrite (mbind_fault _ _ _ _ _ Em').
       cbn [sim]. exists n0a. split; [exact Hout1|]. split; [exact Hun1|].
       right. split; [reflexivity|]. split; [exact Hst1|]. exists new. auto.
@@ -211,12 +227,14 @@ Proof.
     + (* refused *)
       right. split; [reflexivity|]. split.
       * left. exists 0%nat. split; [exact Hc' | cbn; lia].
-      * exists []. split; [reflexivity | apply prefix_nil].
+      * exists []. split; [reflexivity|]. split; [apply prefix_nil|].
+        left. split; [exact Hc' | exists [w]; reflexivity].
     + (* short write *)
       right. split; [reflexivity|]. split.
       * right. exists k'. split; [exact Hy' | rewrite acc_one; exact Hlt'].
       * exists [take (N.to_nat k') w]. split; [reflexivity|]. rewrite !acc_one.
-        exists (drop (N.to_nat k') w). symmetry. apply take_drop.
+        split; [exists (drop (N.to_nat k') w); symmetry; apply take_drop|].
+        right. rewrite Hy', acc_one. f_equal. rewrite take_length; lia.
     + (* accepted *)
       left. split; [reflexivity|]. split; [reflexivity|]. cbn [calls_left bytes_left set_out length]. split.
       * unfold calls_acct. destruct (calls_left st) as [[|n]|]; [congruence | | reflexivity].
@@ -278,9 +296,9 @@ Proof.
   cbn [fst snd sim] in H |- *.
   destruct H as (n0 & Hout & Hun & H). exists n0.
   split; [exact Hout|]. split; [rewrite <- Hun at 2; reflexivity|].
-  destruct H as [ (-> & -> & Hc & Hb) | (-> & Hst & new & Hnew & Hpre) ].
+  destruct H as [ (-> & -> & Hc & Hb) | (-> & Hst & new & Hnew & Hpre & Hstop) ].
   - left. split; [reflexivity|]. split; [reflexivity|]. split; [exact Hc | exact Hb].
-  - right. split; [reflexivity|]. split; [exact Hst|]. exists new. split; [exact Hnew | exact Hpre].
+  - right. split; [reflexivity|]. split; [exact Hst|]. exists new. split; [exact Hnew|]. split; [exact Hpre | exact Hstop].
 Qed.
 
 Theorem wsim_logic : walker_logic (@wsim) (fun _ _ => True).
@@ -329,7 +347,8 @@ Theorem render_two_runs cf fuel name id data cl bl fid :
   let r := render cf fuel name id data cl bl fid in
   let r0 := render cf fuel name id data None None fid in
   (r = r0 /\ ~ refuses cl bl (rr_writes r0)) \/
-  (refuses cl bl (rr_writes r0) /\ surfaced (rr_outcome r) /\ prefix_of (accepted r) (accepted r0)).
+  (refuses cl bl (rr_writes r0) /\ surfaced (rr_outcome r) /\ prefix_of (accepted r) (accepted r0) /\
+   stopped_at cl bl (rr_writes r) (rr_writes r0)).
 Proof.
   cbn zeta. destruct (find_template (r_templates (c_reg cf)) name) as [t|] eqn:Hf.
   2:{ rewrite !(render_notemplate _ _ _ _ _ _ _ _ Hf). left. split; [reflexivity|].
@@ -342,7 +361,7 @@ Proof.
   destruct (walk cf fuel (t_node t) st0) as [r st]. destruct (walk cf fuel (t_node t) (unfault st0)) as [r0 st0'].
   cbn [sim] in H. destruct H as (n0 & Hout & _ & H).
   change (out st0) with (@nil bstr) in Hout. rewrite app_nil_r in Hout.
-  destruct H as [ (-> & -> & Hc & Hb) | (-> & Hst & new & Hnew & Hpre) ].
+  destruct H as [ (-> & -> & Hc & Hb) | (-> & Hst & new & Hnew & Hpre & Hstop) ].
   - left. split; [reflexivity|].
     assert (Hw : forall o f l, rr_writes
       ({| rr_outcome := o; rr_writes := rev (out (unfault st)); rr_file := f; rr_line := l;
@@ -393,7 +412,7 @@ Proof.
       destruct (assoc_s name (r_sources (c_reg cf))); [|apply Hw0].
       destruct (assoc_s name (r_files (c_reg cf))); [|apply Hw0].
       destruct (line_number _ _); apply Hw0. }
-    unfold accepted. rewrite Hws. split; [|split].
+    unfold accepted. rewrite Hws. split; [|split; [|split]].
     + change (calls_left st0) with cl in Hst. change (bytes_left st0) with bl in Hst.
       destruct Hst as [(k & Hk1 & Hk2) | (k & Hk1 & Hk2)]; [left | right]; exists k; (split; [exact Hk1|]).
       * rewrite rev_length. exact Hk2.
@@ -410,6 +429,18 @@ Proof.
         destruct (assoc_s name (r_files (c_reg cf))); [|apply Hwf].
         destruct (line_number _ (cur st)); apply Hwf. }
       rewrite Hwsf. exact Hpre.
+    + assert (Hwf : forall o f l, rr_writes
+        ({| rr_outcome := o; rr_writes := rev (out st); rr_file := f; rr_line := l;
+            rr_unbound := unbound st; rr_shared_writes := shared_writes st |}) = rev new).
+      { intros. cbn [rr_writes]. rewrite Hnew. reflexivity. }
+      match goal with |- stopped_at _ _ (rr_writes ?X) _ => assert (Hwsf : rr_writes X = rev new) end.
+      { destruct (assoc_s name (r_sources (c_reg cf))); [|apply Hwf].
+        destruct (assoc_s name (r_files (c_reg cf))); [|apply Hwf].
+        destruct (line_number _ (cur st)); apply Hwf. }
+      rewrite Hwsf. change (calls_left st0) with cl in Hstop. change (bytes_left st0) with bl in Hstop.
+      destruct Hstop as [(Hk & later & ->) | Hk]; [left | right].
+      * split; [rewrite rev_length; exact Hk | exists (rev later); apply rev_app_distr].
+      * exact Hk.
 Qed.
 
 Section RenderCorollaries.
@@ -426,7 +457,7 @@ Qed.
 
 Lemma accepted_is_prefix_l cl bl : prefix_of (accepted (faulty cl bl)) (accepted free).
 Proof.
-  destruct (render_two_runs cf fuel name id data cl bl fid) as [[He _] | (_ & _ & Hp)].
+  destruct (render_two_runs cf fuel name id data cl bl fid) as [[He _] | (_ & _ & Hp & _)].
   - unfold faulty, free. rewrite He. exists []. symmetry. apply app_nil_r.
   - exact Hp.
 Qed.
@@ -445,6 +476,38 @@ Lemma sufficient_budget_no_change_l cl bl :
 Proof.
   intros Hn. destruct (render_two_runs cf fuel name id data cl bl fid) as [[He _] | (Hr & _)];
     [exact He | contradiction].
+Qed.
+(* exactly which bytes were accepted *)
+Lemma firstn_app_exact {A} (l r : list A) : firstn (length l) (l ++ r) = l.
+Proof. induction l as [|a l IH]; cbn; [destruct r; reflexivity | rewrite IH; reflexivity]. Qed.
+
+Lemma prefix_take p s : prefix_of p s -> p = take (length p) s.
+Proof.
+  intros [r ->]. induction p as [|a p IH]; cbn; [reflexivity|]. f_equal. exact IH.
+Qed.
+
+Lemma accepted_exact_calls_l k :
+  refuses (Some k) None (rr_writes free) ->
+  rr_writes (faulty (Some k) None) = firstn k (rr_writes free).
+Proof.
+  intros Hr. destruct (render_two_runs cf fuel name id data (Some k) None fid) as [[_ Hn] | (_ & _ & _ & Hs)];
+    [contradiction|].
+  fold (faulty (Some k) None) in Hs. fold free in Hs.
+  destruct Hs as [(Hk & later & Hl) | Hk]; [|discriminate].
+  remember (rr_writes (faulty (Some k) None)) as W eqn:HW. clear HW.
+  inversion Hk; subst k. rewrite Hl. symmetry. apply firstn_app_exact.
+Qed.
+
+Lemma accepted_exact_bytes_l b :
+  refuses None (Some b) (rr_writes free) ->
+  accepted (faulty None (Some b)) = take (N.to_nat b) (accepted free).
+Proof.
+  intros Hr. destruct (render_two_runs cf fuel name id data None (Some b) fid) as [[_ Hn] | (_ & _ & Hp & Hs)];
+    [contradiction|].
+  fold (faulty None (Some b)) in Hs, Hp. fold free in Hs, Hp.
+  destruct Hs as [(Hk & _) | Hk]; [discriminate|].
+  unfold accepted in *. remember (concat_b (rr_writes (faulty None (Some b)))) as W eqn:HW. clear HW.
+  inversion Hk; subst b. rewrite Nnat.Nat2N.id. apply prefix_take. exact Hp.
 Qed.
 End RenderCorollaries.
 
